@@ -2,6 +2,7 @@ package props
 
 import (
 	"bytes"
+	"encoding/json"
 	"fmt"
 	"sort"
 	"sync"
@@ -683,4 +684,128 @@ func orErr(err error) error {
 		return nil
 	}
 	return err
+}
+
+// ---- C16 constructors used by many goroutines at once (worker child) -----------
+
+// c16ConcScenario: G goroutines call the control constructors (and what they
+// return) at the same time, the way concurrently dispatched handlers do. A Go
+// "fatal error" (e.g. concurrent map read and map write) cannot be recovered;
+// it kills the process, so the scenario runs in a worker child and the parent
+// attributes the death.
+type c16ConcScenario struct {
+	Goroutines int    `json:"goroutines"`
+	Iters      int    `json:"iters"`
+	OIDBase    string `json:"oid_base"` // every call uses a control type never seen before: base.g.i
+	Known      bool   `json:"known"`    // also mix in the well-known control types
+}
+
+func c16ConcRun(index int, raw json.RawMessage) lab.WorkerResult {
+	var s c16ConcScenario
+	if err := json.Unmarshal(raw, &s); err != nil {
+		return lab.WorkerResult{Skipped: "bad scenario"}
+	}
+	var wg sync.WaitGroup
+	var first atomic.Value
+	start := make(chan struct{})
+	for g := 0; g < s.Goroutines; g++ {
+		wg.Add(1)
+		go func(g int) {
+			defer wg.Done()
+			<-start
+			for i := 0; i < s.Iters; i++ {
+				oid := fmt.Sprintf("%s.%d.%d", s.OIDBase, g, i)
+				site, val, _ := guard(func() {
+					c, err := gldap.NewControlString(oid, gldap.WithCriticality(i%2 == 0), gldap.WithControlValue("v"))
+					if err == nil && c != nil {
+						_ = c.GetControlType()
+						_ = c.String()
+						_ = c.Encode().Bytes()
+					}
+					if s.Known {
+						if p, err := gldap.NewControlPaging(uint32(i)); err == nil {
+							_ = p.String()
+							_ = p.Encode().Bytes()
+						}
+						if m, err := gldap.NewControlManageDsaIT(); err == nil {
+							_ = m.String()
+						}
+						if bp, err := gldap.NewControlBeheraPasswordPolicy(gldap.WithGraceAuthNsRemaining(uint(i))); err == nil {
+							_ = bp.String()
+							_ = bp.Encode().Bytes()
+						}
+					}
+				})
+				if val != nil && first.Load() == nil {
+					first.Store(fmt.Sprintf("%s: %v", site, val))
+				}
+			}
+		}(g)
+	}
+	close(start)
+	wg.Wait()
+	if v := first.Load(); v != nil {
+		return lab.WorkerResult{OK: false, FP: "panic:concurrent-control-constructors", Msg: fmt.Sprintf("control constructors called from %d goroutines at once panicked: %s", s.Goroutines, v.(string)), Delivered: true}
+	}
+	return lab.WorkerResult{OK: true, Delivered: s.Goroutines >= 2}
+}
+
+type c16ConcBatch struct {
+	Scenarios []c16ConcScenario `json:"scenarios"`
+}
+
+func TestC16CtlConcurrent(t *testing.T) {
+	lab.Prop[c16ConcBatch]{
+		ID: "C16", Part: "ctlconc",
+		Rule: "rapid: batches of 2..5 scenarios run in a worker child process: 2..16 goroutines call NewControlString with control types never seen before in the process (plus, optionally, the typed control constructors), String and Encode of the results, 50..400 times each, all released together; oracle = no panic and the child process survives (a Go fatal error such as 'concurrent map read and map write' cannot be recovered); non-trivial = >= 2 goroutines; distinct by scenario",
+		Gen: func(t *rapid.T) c16ConcBatch {
+			var b c16ConcBatch
+			n := rapid.IntRange(2, 5).Draw(t, "n")
+			for i := 0; i < n; i++ {
+				b.Scenarios = append(b.Scenarios, c16ConcScenario{
+					Goroutines: rapid.SampledFrom([]int{2, 4, 8, 16}).Draw(t, "goroutines"),
+					Iters:      rapid.SampledFrom([]int{50, 100, 400}).Draw(t, "iters"),
+					OIDBase:    rapid.StringMatching(`[12]\.[0-9]{1,3}\.[0-9]{1,5}`).Draw(t, "oidbase"),
+					Known:      rapid.Bool().Draw(t, "known"),
+				})
+			}
+			return b
+		},
+		Exec: func(c c16ConcBatch, st *lab.Stats) *lab.Fail {
+			cases := make([]interface{}, len(c.Scenarios))
+			for i := range c.Scenarios {
+				cases[i] = c.Scenarios[i]
+			}
+			res, err := lab.RunWorkers("c16", cases, 60*time.Second)
+			if err != nil {
+				st.Inconclusive(err.Error())
+				return nil
+			}
+			var first *lab.Fail
+			for i, r := range res {
+				s := c.Scenarios[i]
+				if r.Skipped != "" {
+					st.Inconclusive(fmt.Sprintf("scenario %+v skipped: %s", s, r.Skipped))
+					continue
+				}
+				st.Case(s.Goroutines >= 2, lab.JSONKey(s), fmt.Sprintf("goroutines=%d", s.Goroutines), fmt.Sprintf("known=%v", s.Known))
+				if st.WantSample() {
+					st.Sample(s)
+				}
+				var f *lab.Fail
+				switch {
+				case r.Died:
+					f = lab.Failf("process-died:concurrent-control-constructors", "scenario %+v: the process DIED while %d goroutines were calling the control constructors: %s %s", s, s.Goroutines, r.ExitInfo, tailOf(r.Stderr, 700))
+				case !r.OK:
+					f = &lab.Fail{Fingerprint: r.FP, Message: r.Msg}
+				}
+				if f != nil {
+					if known := st.Report(f, c16ConcBatch{Scenarios: []c16ConcScenario{s}}); !known && first == nil {
+						first = f
+					}
+				}
+			}
+			return first
+		},
+	}.Run(t)
 }
